@@ -9,11 +9,12 @@ from pathlib import Path
 from ..core import MachineryError
 from . import c15_impl as I
 
-IMPL_INVS = ["NoStaleValidator", "WellFormed", "NoSharing", "SchemaCoherent", "SchemaRequired", "ExportCorrect"]
+IMPL_INVS = ["NoStaleValidator", "WellFormed", "NoSharing", "SchemaCoherent", "SchemaRequired", "ExportCorrect",
+             "DefaultsWellFormed", "DefaultsBound"]
 
 
-def impl_cfg(rules, rename_resets, max_ops, invs, prop=True):
-    s = (f'CONSTANTS Names = {{"a", "b"}}\n Types = {{1, 2}}\n Rules = "{rules}"\n'
+def impl_cfg(rules, rename_resets, max_ops, invs, prop=True, copy_defaults="rebind"):
+    s = (f'CONSTANTS Names = {{"a", "b"}}\n Types = {{1, 2}}\n Rules = "{rules}"\n CopyDefaults = "{copy_defaults}"\n'
          f" RenameResets = {'TRUE' if rename_resets else 'FALSE'}\n MaxOps = {max_ops}\n"
          "SPECIFICATION Spec\nCHECK_DEADLOCK FALSE\nINVARIANT TypeOK\n")
     for i in invs:
@@ -26,8 +27,8 @@ def impl_cfg(rules, rename_resets, max_ops, invs, prop=True):
 def impl_spec(ck):
     """Specification-level check of the derived state of JSONGrammar (lazily built views, copies)."""
     depth = 5 if ck.thorough else 3
-    acts = ("AddTyped", "AddNamed", "AddSchema", "Rename", "Delete", "Unrequire", "Schema", "Validate", "ToJson",
-            "Pickle", "Copy")
+    acts = ("AddTyped", "AddNamed", "AddSchema", "Rename", "Delete", "Unrequire", "SetDefault", "Schema", "Validate",
+            "ToJson", "Pickle", "Copy")
     r = ck.tlc("GrammarImpl", impl_cfg("coherent", True, depth, IMPL_INVS), workers=4, timeout=900)
     for a in acts:
         if r.coverage.get(a, [0, 0])[1] == 0:
@@ -39,6 +40,13 @@ def impl_spec(ck):
     if r.violated != "NoStaleValidator":
         raise MachineryError("GrammarImpl: NoStaleValidator is not refuted when rename keeps the validator (vacuous)")
     out["rename_without_reset"] = {"refutes": r.violated, "trace_length": len(r.counterexample())}
+    # a copy that installs copy(defaults) (bound to the source grammar) instead of re-binding the defaults
+    r = ck.tlc("GrammarImpl", impl_cfg("coherent", True, 4, ["DefaultsWellFormed"], prop=False, copy_defaults="shallow"),
+               workers=1, timeout=600, expect_ok=False, count=False, coverage=False)
+    if r.violated != "DefaultsWellFormed":
+        raise MachineryError("GrammarImpl: DefaultsWellFormed is not refuted when a copy keeps the defaults of the "
+                             "original bound to the original (vacuous)")
+    out["copy_keeps_defaults_owner"] = {"refutes": r.violated, "trace": [a for a, _ in r.counterexample()][1:]}
     # the rules of the code as read: which clauses TLC refutes (design-level reproduction of the findings)
     todo = [("NoSharing", False), ("WellFormed", False), ("ExportCorrect", False), ("SchemaRequired", False),
             ("SchemaAdds", True)] if ck.thorough else []
